@@ -25,7 +25,10 @@ def run(tier='quick', only=None):
             for pid in meta.get('properties') or [meta.get('property', d.split('-')[0])]:
                 entries.append((f'{d}@{pid}' if meta.get('properties') else d, d, pid, os.path.join(root, d, 'patch.diff')))
     if only:
-        entries = [e for e in entries if e[0] in only or e[1] in only or e[2] in only]
+        by_name = [e for e in entries if e[0] in only or e[1] in only]
+        # a seed directory name wins over a property id (the first-round directories are named like their property); 'prop:C01' selects by property
+        props_ = [o[5:] for o in only if o.startswith('prop:')]
+        entries = [e for e in entries if e[2] in props_] if props_ else (by_name or [e for e in entries if e[2] in only])
     seeds = [e[0] for e in entries]
     bad = []
     for sid, dname, pid, patch in entries:
